@@ -195,6 +195,10 @@ pub fn svgdx_doc(rng: &mut Rng, with_root: bool) -> String {
             _ => body.push_str(&format!("  <line {} {} {} {}/>\n", in_attr(rng, "xy1", &xy), in_attr(rng, "xy2", "40 40"), hattr(rng, "text", 3), in_attr(rng, "class", "d-arrow d-dash"))),
         }
     }
+    // a reference to a character XML cannot contain: the reader resolves it, the writer must refuse
+    if rng.chance(1, 25) {
+        body.push_str(*rng.pick(&["  <text xy=\"0 0\">x&#2;y</text>\n", "  <rect wh=\"2\" data-c=\"a&#xB;b\"/>\n", "  <rect wh=\"2\" text=\"p&#xFFFE;q\"/>\n", "  <!-- c --><g>t&#31;</g>\n"]));
+    }
     if with_root {
         let mut root = String::from("<svg");
         if rng.chance(1, 4) { root.push(' '); root.push_str(&in_attr(rng, "width", "50mm")); }
